@@ -176,7 +176,18 @@ class TTLEviction(CacheEvictionPolicy):
 
         self._ttl = ttl
         self._clock_func = clock_func or time.time
+        self._uses_default_clock = clock_func is None
         self._insert_times: dict[str, float] = {}
+
+    def bind_clock(self, clock_func: Callable[[], float]) -> None:
+        """Use ``clock_func`` (simulated seconds) unless a clock was given explicitly.
+
+        Called by the owning cache when it is attached to a simulation, so that
+        the TTL is measured in simulated time and runs do not depend on the
+        wall clock.
+        """
+        if self._uses_default_clock:
+            self._clock_func = clock_func
 
     @property
     def ttl(self) -> float:
